@@ -116,6 +116,12 @@ CHECKS.update({
   text="P: Compile(a, b) succeeds iff Expand(a) = Expand(b) (std shorthands expanded) and a failing build names the language-option mismatch in every included type header. TLC checks Refines / Iff / NamesExactly / Injective (no CRC-32 collision among the 35 documented string values) for all 48 C option vectors and the 14 documented C++ families with single and double changes (1-bit-hash negative control refuted); ~900-1250 enumerated pairs plus simulated multi-option pairs and 100-1000 random pairs (undocumented, unicode, near-identical strings; one side generated by the CLI) are generated for 8 DSDL types and compiled together with gcc/g++ (clang in thorough), every compile record judged by the trace spec.",
   note=TB + "gcc 12 / clang 14 evaluating static assertions under -fsyntax-only; stand-in CETL headers; 'documented values' = properties.yaml plus the CLI choices."),
 })
+CHECKS.update({
+ "C06": dict(cat="exploration", ref="DESIGN.md §6 C06, §13.3",
+  technique="TLA+ model of generation and include closure (Includes.tla: worlds of types over two roots, Generate(root, omit) in any order, invariants Closure / SelfSufficient, support policy observed from the real generator, three negative controls) checked by TLC; TLC-enumerated worlds and the TLC-enumerated name universe (IncludesNames.tla: position x class of name x word x kind of host type) are materialised as DSDL trees and put through the real generator and real compilers / the interpreter; every recorded begin/gen/refs/compile event is judged by the trace spec IncludesTrace.tla",
+  text="The include-closure clause (no produced file refers to a file generation does not produce) is model-checked for every world of the bounded model and every recorded run is validated against it. 'Compiles without diagnostics' is a fact only a compiler establishes: the spec states it as an event postcondition and TLC enumerates the inputs, so this clause is bounded-exhaustive exploration, not model checking: every generated header is compiled alone (C11 gcc+clang, inside a C++ TU, C++14/17/20 g++ and clang++, plus a TU expanding the header's own macros) with the flag set read from verification/cmake/compiler_flag_sets/common.cmake, every Python module imported alone with warnings as errors, for c, cpp (4 standards) and py with support enabled and omitted; plus seeded random larger namespace sets and every DSDL tree shipped in the repository.",
+  note=TB + "gcc 12 / clang 14 as the compilers; names drawn from keyword / reserved-pattern / builtin lists of each language (the thorough tier adds non-macro library names); two recorded known findings (C++ standard-library macro names unstropped; -Wnested-anon-types for C unions inside a C++ TU)."),
+})
 NOT_YET = {}
 props = [json.loads(l) for l in open(V / "properties.jsonl")]
 checks, na = [], []
